@@ -47,10 +47,9 @@ META = {
                   "on exit of the volume block, which are executed, not stated), positive orientation of the pieces across a "
                   "whole volume history, subdivide_triangles_6(repeat>=2) manifold, chaining of the manifold invariants "
                   "across mixed histories (fan then loop), Python-set order effects.",
-    "level_note": "Model of RawMeshData._prepare_edges is hand-written and predates /repo 32e0758 (an edge declared twice is now "
-                  "kept once): it agrees with the code on every edge list without a repeated edge (proved for every documented input: "
-                  "C13_accepts_prepared_surface_exact); a repeated edge arises only under the known finding "
-                  "C13/non-simple-input-triangulate, which the oracle judges. "
+    "level_note": "RawMeshData._prepare_edges (mesh_data.py) is mirrored by hand in Model.prepare_edges except for one generated "
+                  "flag (pe_drop_repeated: is an edge whose keyified pair was already kept dropped? - read from the source "
+                  "shape, two forms accepted, fail closed); the theorems about prepared inputs hold for both values. "
                   "Trusted: Coq kernel + vm_compute; the subdivision.py translator; the correspondence harness "
                   "(generators, driver canonicalisation, exact rational read-back of binary64 coordinates on inputs that "
                   "are multiples of 2^10*3^5*5*7). The order of a Python set (loop_subdivision's edge set) is not "
@@ -535,7 +534,7 @@ def nontrivial(case, o):
 
 def run(ctx):
     quick = ctx.tier == "quick"
-    n_surf, n_sd, n_poly, n_vol = (210, 40, 50, 90) if quick else (5500, 800, 800, 1800)
+    n_surf, n_sd, n_poly, n_vol = (210, 40, 50, 90) if quick else (3600, 600, 600, 1200)
     max_faces = 200 if quick else 500
     ctx.rule = ("surfaces from 18 seed kinds (triangle/quad/polygon faces, disks, annuli, tori, closed polyhedra, holes, "
                 "two components; renumbered, rotated, shuffled) with 0-4 editor operations in one block (at most 5 levels "
